@@ -18,7 +18,7 @@ def pinned : AuthShape :=
     literals := [(.startsWith, Spec.wellKnown)],
     entries := [{ cmp := .startsWith, suffix := Spec.healthSuffix, cond := .health },
                 { cmp := .startsWith, suffix := Spec.oauthSuffix, cond := .pkce }],
-    recognised := true }
+    recognised := true, stateless := true }
 
 def cfg : Cfg :=
   { pfx := [], authConfigured := true, health := true, pkce := false, oauthMeta := false, upload := false, sticky := false,
